@@ -97,7 +97,10 @@ def source_facts():
         # the model's decSnapshot takes ONE instant per key — the instant that key is loaded: the loader must read the wall clock
         # where it turns the key's absolute deadline into a TTL (a clock read once for the whole load makes every deadline
         # slip by the time spent on the keys before it, which only a very large file shows)
-        "clockPerKey": bool(re.search(r"SystemTime::now\(\)", exp)),
+        "clockPerKey": bool(re.search(r"SystemTime::now\(\)", exp)) or
+                       (bool(re.search(r"Self::time_left\(", exp)) and bool(re.search(r"SystemTime::now\(\)", body("time_left") or ""))),
+        # … and the remaining time is measured where the deadline is APPLIED (after the value has been read and rebuilt), not before
+        "clockAtApply": bool(re.search(r"Self::time_left\(", body("expire_at") or "")) and bool(re.search(r"SystemTime::now\(\)", body("time_left") or "")),
         # read_string reads in bounded chunks (since d4d929f) instead of vec![0u8; len]: the allocation bound itself is C10's
         # (loader_alloc_bounded); here it only decides which allocation trace the real loader is compared with
         "boundedRead": bool(re.search(r"read_to_end|\.take\s*\(", body("read_string") or "")) and not re.search(r"vec!\s*\[\s*0u8\s*;\s*len\s*\]", body("read_string") or ""),
@@ -637,6 +640,10 @@ class C09:
             lt = self.mask("live %d %s" % (tl1, tokens(d0)))
             if canon(parse(lt.split(" "))) != spec:
                 raise InternalError("case %s: Lean `live` and the check's Spec disagree" % name)
+        if case.get("kind") == "bigvalue":
+            self.notes["bigvalue"] = {"file_bytes": len(f), "save_ms": ts1 - ts0, "loader_ms": tl1 - tl0, "tolerance_ms": TOL,
+                                      "discriminating(save + load time >= 3 x tolerance)": (ts1 - ts0) + (tl1 - tl0) >= 3 * TOL}
+            rep.count("bigvalue.save+load-time-%s-3xTOL" % (">=" if (ts1 - ts0) + (tl1 - tl0) >= 3 * TOL else "<"))
         if case.get("kind") == "bigfile":
             self.notes["bigfile"] = {"keys": len(c0), "file_bytes": len(f), "loader_ms": tl1 - tl0, "tolerance_ms": TOL,
                                      "discriminating(loader time >= 5 x tolerance)": tl1 - tl0 >= 5 * TOL}
@@ -1231,6 +1238,15 @@ class C09:
         hr = r.fork("tcp-history")
         for i in range(1 if tier == "quick" else 8):
             self.tcp_history(gen_history(hr), "tcp-history-%d" % i)
+        # ONE value that takes long to copy (snapshot) and to rebuild (loader), with a TTL, next to a small key with the same TTL:
+        # both deadlines must come back to clock granularity — a remaining time measured before the copy / before the value is
+        # read and applied after it moves the big key's deadline by that time (hunt C02/d1, repaired by 20f1200)
+        vr = r.fork("bigvalue")
+        nbig = 60000 if tier == "quick" else 200000
+        bigv = [{"key": b"bigz", "dl": 600000, "ty": "Z", "val": [(b"m%07d" % i, (0x3FF0000000000000 + i)) for i in range(nbig)]},
+                {"key": b"bigl", "dl": 601000, "ty": "L", "val": [b"e%07d" % i for i in range(nbig)]},
+                {"key": b"small", "dl": 600000, "ty": "S", "val": b"v"}]
+        self.run_case({"name": "big-value-with-ttl", "kind": "bigvalue", "lean": False, "bytes": False, "spec_py_only": True, "ds": [(vr.below(16), bigv)]})
         if tier == "thorough":
             # a first database that takes the loader long to read, keys with a TTL after it (later in db 0's file order is not controllable,
             # later databases are): every deadline must come back to clock granularity however long the load has been going on
